@@ -299,7 +299,19 @@ func (fr *Frame) resolveLocal(name string, blk *ssa.BasicBlock, idx int, h *Heap
 			}
 		}
 	}
-	defs := fr.names[name]
+	defs := append([]nameDef{}, fr.names[name]...)
+	// phis carrying this variable (joins of different assignments) are definitions too
+	for _, b := range fr.fn.Blocks {
+		for _, in := range b.Instrs {
+			phi, ok := in.(*ssa.Phi)
+			if !ok {
+				break
+			}
+			if phi.Comment == name {
+				defs = append(defs, nameDef{val: phi, block: b, idx: -1})
+			}
+		}
+	}
 	var best *nameDef
 	for i := range defs {
 		d := &defs[i]
@@ -323,7 +335,7 @@ func (fr *Frame) resolveLocal(name string, blk *ssa.BasicBlock, idx int, h *Heap
 			best = d
 			continue
 		}
-		// prefer the closest dominator; inside one block, the latest
+		// the reaching definition is the dominator-deepest one; inside one block, the latest
 		if best.block == d.block {
 			if d.idx > best.idx {
 				best = d
@@ -333,29 +345,6 @@ func (fr *Frame) resolveLocal(name string, blk *ssa.BasicBlock, idx int, h *Heap
 		}
 	}
 	if best == nil {
-		// phi anywhere dominating with that comment
-		var bp *ssa.Phi
-		for _, b := range fr.fn.Blocks {
-			if !(b == blk || b.Dominates(blk)) {
-				continue
-			}
-			for _, in := range b.Instrs {
-				phi, ok := in.(*ssa.Phi)
-				if !ok {
-					break
-				}
-				if phi.Comment == name {
-					if _, ok := fr.vals[phi]; ok {
-						if bp == nil || bp.Block().Dominates(b) {
-							bp = phi
-						}
-					}
-				}
-			}
-		}
-		if bp != nil {
-			return fr.vals[bp], true
-		}
 		return Val{}, false
 	}
 	v := fr.get(best.val)
@@ -906,8 +895,131 @@ func (e *Env) evalCall(t *ast.CallExpr) Val {
 		}
 		return out
 	}
+	if sel, ok := t.Fun.(*ast.SelectorExpr); ok {
+		if v, ok := e.pureMethodCall(sel, t.Args); ok {
+			return v
+		}
+	}
 	e.errf("unknown function %q in contract", name)
 	return intVal("0")
+}
+
+var pureCallMemo = map[*VC]map[string]Val{}
+
+// pureMethodCall: x.m(args) in a contract where m has a `pure` contract: the
+// value is a fresh symbol constrained by the callee's ensures (under its
+// requires), evaluated in the current heap of the environment.
+func (e *Env) pureMethodCall(sel *ast.SelectorExpr, argExprs []ast.Expr) (Val, bool) {
+	vc := e.vc
+	recv := e.evalGo(sel.X)
+	if recv.Typ == nil {
+		return Val{}, false
+	}
+	var ct *Contract
+	var sig *types.Signature
+	var names []string
+	var key string
+	T := recv.Typ
+	if _, isI := T.Underlying().(*types.Interface); isI {
+		key = "iface " + vc.typeName(T) + "." + sel.Sel.Name
+		ct = vc.S.Contracts[key]
+		obj, _, _ := types.LookupFieldOrMethod(T, true, e.pkgOf(T), sel.Sel.Name)
+		if f, ok := obj.(*types.Func); ok {
+			sig = f.Type().(*types.Signature)
+		}
+		if ct != nil {
+			names = ct.Params
+		}
+	} else {
+		base := T
+		ptr := ""
+		if pt, ok := T.Underlying().(*types.Pointer); ok {
+			base = pt.Elem()
+			ptr = "*"
+		}
+		n, ok := types.Unalias(base).(*types.Named)
+		if !ok || n.Obj().Pkg() == nil {
+			return Val{}, false
+		}
+		for _, k := range []string{n.Obj().Pkg().Name() + ".(" + ptr + n.Obj().Name() + ")." + sel.Sel.Name, n.Obj().Pkg().Name() + ".(" + n.Obj().Name() + ")." + sel.Sel.Name, n.Obj().Pkg().Name() + ".(*" + n.Obj().Name() + ")." + sel.Sel.Name} {
+			if c := vc.S.Contracts[k]; c != nil {
+				ct, key = c, k
+				break
+			}
+		}
+		if ct != nil {
+			if fn := vc.P.Funcs[key]; fn != nil {
+				sig = fn.Signature
+				names = paramNames(fn)
+			}
+			if len(ct.Params) > 0 {
+				names = ct.Params
+			}
+		}
+	}
+	if ct == nil || sig == nil {
+		return Val{}, false
+	}
+	if !ct.Pure {
+		e.errf("method %s used in a contract is not declared pure", key)
+		return Val{}, true
+	}
+	all := []Val{recv}
+	for _, a := range argExprs {
+		all = append(all, e.evalGo(a))
+	}
+	mk := fmt.Sprintf("%s|%d", key, e.heap.id)
+	for _, a := range all {
+		mk += "|" + joinSp(a.L)
+		for _, l := range a.L {
+			if strings.Contains(l, "bv.") {
+				e.errf("pure method call %s on a bound variable is not supported", key)
+				return Val{}, true
+			}
+		}
+	}
+	if pureCallMemo[vc] == nil {
+		pureCallMemo[vc] = map[string]Val{}
+	}
+	if v, ok := pureCallMemo[vc][mk]; ok {
+		return v, true
+	}
+	rt := resultType(sig)
+	res := vc.freshVal("pure."+sanitize(key), rt)
+	vc.assert(vc.typeFacts(res))
+	ce := &Env{vc: vc, vars: map[string]Val{}, heap: e.heap, old: e.heap, now: e.now, pkg: e.pkg, what: "pure call of " + key + " in " + e.what}
+	if strings.HasPrefix(key, "iface ") || true {
+		// contract package
+		k := strings.TrimPrefix(key, "iface ")
+		if i := strings.Index(k, "."); i > 0 {
+			if p := vc.P.PkgByName[k[:i]]; p != nil {
+				ce.pkg = p
+			}
+		}
+	}
+	for i, n := range names {
+		if i < len(all) {
+			ce.vars[n] = all[i]
+		}
+	}
+	if len(names) == 0 {
+		ce.vars["this"] = recv
+	}
+	var reqs, enss []string
+	for _, r := range ct.Requires {
+		reqs = append(reqs, ce.eval(r.E).T())
+	}
+	bindResults(vc, ce, sig, ct.Results, res)
+	for _, en := range ct.Ensures {
+		enss = append(enss, ce.eval(en.E).T())
+	}
+	vc.assert(imp(and(reqs...), and(enss...)))
+	out := res
+	if sig.Results().Len() == 1 {
+		out.Typ = sig.Results().At(0).Type()
+	}
+	pureCallMemo[vc][mk] = out
+	return out, true
 }
 
 func (e *Env) oldNow() string {
